@@ -23,7 +23,7 @@ BLOBS = ["", "AA==", "aGVsbG8=", "++++/v79/A=="]  # the last one uses both chara
 
 _WARM = [
     (Person, {"firstName": "a", "mood": None, "user_name_2": "u", "home-address": {"street": "s"}, "status": "active", "level": 1, "attrs": {"k": 1}, "addresses": [{"street": "t"}], "grid": [[{"street": "g", "zip-code": "z"}]]}),
-    (Stamps, {"created": WHENS[0], "born": DAYS[0], "avatar": BLOBS[1], "score": 1.5, "active": True}),
+    (Stamps, {"created": WHENS[0], "born": DAYS[0], "avatar": BLOBS[1], "blob": BLOBS[2], "score": 1.5, "active": True}),
     (Employee, {"id": 1, "boss": "b", "office": {"street": "s"}}),
     (Account, {"user_id_2": "r", "userId": "a", "user_id": "b", "User-Id": 3}),
 ]
@@ -247,6 +247,7 @@ def ob_stamps_formats(w: int, has_born: bool, d: int, has_uid: bool, u: int, has
         doc["uid"] = UUIDS[u]
     if has_avatar:
         doc["avatar"] = BLOBS[b]
+        doc["blob"] = BLOBS[b]
     if has_active:
         doc["active"] = active
     back = dict(_norm(U(S(dict(doc), Stamps))))
